@@ -611,6 +611,8 @@ fn c18_multi(stats: &mut Stats) -> Vec<Failure> {
             vec!["--glob", "!vendor/**", "--", "."],
             // the traversal of `src` meets a symbolic link to the second file
             vec!["a.lua", "src"],
+            // a file without the .lua extension named explicitly AFTER the directory that contains it
+            vec![".", "tool"],
             // files named explicitly are checked whatever the glob list says (no --respect-ignores)
             vec!["--glob", "!**/a.lua", "--", "a.lua", "../shared/a.lua"],
         ] {
@@ -621,6 +623,7 @@ fn c18_multi(stats: &mut Stats) -> Vec<Failure> {
                 t.add("shared/lua/", b"");
                 t.link("proj/vendor", "../shared/lua");
                 t.link("proj/src/util.lua", "../../shared/a.lua");
+                t.add("proj/tool", second.as_bytes());
                 let mut argv: Vec<String> = vec!["--check".into(), "--color".into(), "Never".into(), "--output-format".into(), fmt.into()];
                 argv.extend(args.iter().map(|x| x.to_string()));
                 scs.push(Scenario {
@@ -636,14 +639,16 @@ fn c18_multi(stats: &mut Stats) -> Vec<Failure> {
         let first_differs = s.desc.contains("first=\"local   x");
         let second_differs = s.desc.contains("second=\"local   y");
         // (below `.` the second file is reached as well: through the link src/util.lua)
-        let n = first_differs as usize + second_differs as usize;
+        // (`tool` has the second file's text)
+        // (a glob list that only excludes selects every other file below `.`, `tool` included)
+        let n = first_differs as usize + second_differs as usize + if s.desc.contains("\"tool\"") || s.desc.contains("!vendor/**") { second_differs as usize } else { 0 };
         let fmt = s.run.argv[4].as_str();
         let stdout = String::from_utf8_lossy(&o.stdout).to_string();
         let reported = match fmt {
             "Standard" => stdout.lines().filter(|l| l.starts_with("Diff in ")).count(),
             "Unified" => stdout.lines().filter(|l| l.starts_with("--- ")).count(),
             "Json" => stdout.lines().filter(|l| serde_json::from_str::<serde_json::Value>(l).map(|v| v.get("mismatches").is_some()).unwrap_or(false)).count(),
-            _ => stdout.lines().filter(|l| l.trim_end().ends_with(".lua")).count(),
+            _ => stdout.lines().filter(|l| l.trim_end().ends_with(".lua") || l.trim() == "tool").count(),
         };
         // the summary names exactly the differing files, as the arguments spell them
         if fmt == "Summary" && s.run.argv.len() == 7 && !s.run.argv[5].starts_with('-') && s.run.argv[5] != "." && s.run.argv[6] != "src" {
